@@ -12,7 +12,8 @@ structure S where
 abbrev Err := List String   -- the log at the moment of the error, failing item last
 
 /-- Matcher ids: `1000*kind + n`, kind 0 = true, 1 = false, 2 = error,
-3 = "a response is present", 4 = "true only the first time it is asked" (its name is not in the log yet).
+3 = "a response is present", 4 = "true only the first time it is asked" (its name is not in the log yet),
+5 / 6 = the stock `_true` / `_false` (constant, log nothing).
 Plain action ids: kind 0 = ok (log only), 1 = error, 2 = answer the query with rcode `n`, 3 = drop the response.
 Wrapper ids: kind 0 continue, 1 stop, 2 post-process, 3 run the continuation twice,
 4 run it on two copies (the harness does that concurrently). -/
@@ -24,6 +25,8 @@ def sem : Sem S Err where
     | 1 => .ok (false, { s with log := s.log ++ [name] })
     | 3 => .ok (s.resp.isSome, { s with log := s.log ++ [name] })
     | 4 => .ok (!s.log.contains name, { s with log := s.log ++ [name] })
+    | 5 => .ok (true, s)
+    | 6 => .ok (false, s)
     | _ => .error (s.log ++ [name])
   execFn id s :=
     let name := s!"a{id}"
